@@ -330,7 +330,7 @@ def check_flow(flows, restarts, error, acts):
         if t == "END":
             if i < n:
                 return "vcl_log was followed by vcl_%s" % flows[i]
-            if error:
+            if error and a != "absent":
                 return "error reported although vcl_log completed"
             if r != restarts:
                 return "reported restarts=%d but the flow re-enters vcl_recv %d times" % (restarts, r)
